@@ -20,8 +20,8 @@ from vlib import sqlo
 
 PROP = 'C02'
 META = {
-    'extractors': ['lex'],
-    'technique': 'Lean 4 proof (induction over the string / value list) over extracted escape tables + reference lexers + differential correspondence',
+    'extractors': ['lex', 'pylex'],
+    'technique': 'Lean 4 proof (induction over the string / value list) over extracted escape tables + reference lexers + differential correspondence + TRANSLATOR tie (pylex.py: the Python AST of the converters / sqlrepr / statement assemblers is translated into the PyLex deep embedding on every run and proved equal to the hand model by symbolic execution, C02_translated_*)',
     'level_text': ('Theorems C02_*: for all 7 dialects and every string (any code points), the literal StringLikeConverter renders '
                    '(extracted replacement table, dialect tuples and E-prefix rule) is lexed by the dialect\'s reference lexer as ONE '
                    'token that decodes to exactly the string, whatever follows (not a quote); NUL is refused where the backend cannot '
@@ -46,7 +46,13 @@ META = {
                  'SQLite 3.40.1 decimal->double parsing is within 1 ulp, not correctly rounded (about 1e-4 of random doubles come back 1 ulp off on the unchanged tree)',
                  'non-finite floats render as the bare words inf / -inf / nan (baseline): not numeric literals, refused by SQLite (no such column)',
                  'raw NUL inside a firebird/sybase/maxdb/mssql/postgres statement is modelled as refused (C-string client APIs)'],
-    'assumptions': ['string primary keys: ids that look numeric are excluded (the link-table columns are declared INT; that is DDL, C14)',
+    'assumptions': ['TRANSLATED source (vlib/extractors/pylex.py -> Extracted/PyLex.lean, semantics Model/PyLex.lean, interface Model/LexX.lean): StringLikeConverter, '
+                    'quote_str, unquote_str, Int/Bool/None/Float/Sequence/Date/Time/DateTime converters, sqlrepr, SQLObject.__sqlrepr__, DBAPI.sqlrepr/_insertSQL/_SO_update are '
+                    'translated from the AST on every run and proved equal to the hand model for all inputs (C02_translated_*); DBAPI._SO_columnClause is NOT translated (its final '
+                    'join is extracted as data by lex.py; kw/dict handling hand-modelled + statement streams); assumed interface: exact-class converter registry (extracted '
+                    'registerConverter table, Python 3 branch, optional third-party types absent), which classes have __sqlrepr__, repr(float) is opaque text; the CPython '
+                    'semantics of str.replace / in / % (%s %d %0Nd) / join / repr(int) are built into the embedding and cross-checked only through the text-equality streams',
+                    'string primary keys: ids that look numeric are excluded (the link-table columns are declared INT; that is DDL, C14)',
                     'PostgreSQL runs with standard_conforming_strings=on (default since 9.1), MySQL without NO_BACKSLASH_ESCAPES and ANSI_QUOTES',
                     'ENUM/CHECK DDL: the literal list is the sequence rendering (theorem C02_enum_literal_list); the surrounding column type text is checked by tokenising the real EnumCol type methods and by createTable + inserts on SQLite (its grammar is C14)'],
     'exhaustive': False,
